@@ -47,4 +47,47 @@ PROPS = {
                 "the spec alphabet incl. Unicode whitespace and case-folding confusables; non-trivial = decision grid or salvage oracle evaluated",
         "trusted": SPEC_TRUST + ["toml crate lexical layer (validated by the real to_toml -> from_toml round trip, not proved)"],
     },
+    "C03": {
+        "level_text": "Kernel-checked theorems on the thread/channel protocol model (Conc): for EVERY schedule of any number of threads, both the "
+                      "mutex path (format, then one critical section per line) and the async path (pooled buffers, FIFO channel, single consumer, "
+                      "control messages), every complete run emits each thread's lines exactly once, intact, in per-thread order (all_schedules_sync/async), "
+                      "with the pool invariant 'pooled buffers are empty' (and a witness that dropping the clear breaks it); shutdown drains the channel. "
+                      "Validation: real threads (2..8) log through the real FileLogWriter under seeded scheduling noise at hook points; the observed global "
+                      "order must be accepted by the Conc model AND, replayed as a sequential history, reproduce the real directory in the Flw model (linearizability).",
+        "level_note": "PARTIAL: a theorem cannot exhibit real preemption inside a critical section or OS tearing of a write(2); those are sampled by the "
+                      "real-thread runs, not proved. Assumes mutex critical section = atomic step, crossbeam channel FIFO per producer, one write_all per line.",
+        "correspondence": "observed order of real concurrent runs vs Conc.ObsOk, and vs the sequential Flw model (directory snapshot)",
+        "rule": "seeded programs (2..8 threads x 3..25 lines of sizes 8..130) x modes sync direct/buffered/async(pool,msg) x all namings x size limits; "
+                "non-trivial = the run produced more than one file",
+        "trusted": ["std::sync::Mutex, crossbeam-channel FIFO, crossbeam ArrayQueue", "OS: a single write(2) of a line is not torn"],
+        "shards": 4,
+    },
+    "C12": {
+        "level_text": "Kernel-checked: in the locked protocol (spec replaced and max level set under one write lock) EVERY interleaving of any number of "
+                      "concurrent set_new_spec calls ends, once all have returned, with one submitted specification as a whole and the max level of exactly "
+                      "that specification (atomic_update_consistent); the unlocked protocol of the original code is proved to violate this on the schedule "
+                      "A1 A2 B2 B1 (race_witness; the defect was repaired, fix 2bbaa7c). Validation: all interleavings of 2 calls and all one-waiter "
+                      "interleavings of 3 calls are executed on the real LoggerHandle by parking threads at the hook point between the two steps.",
+        "level_note": "Trusted: RwLock semantics; thread parking via the cfg-guarded hook point 'spec.updated'; 'blocked' is observed with a 60 ms timeout. "
+                      "push/pop run through the same set_new_spec path (their stack part is per handle clone, C05).",
+        "correspondence": "Spec.CState (lock model) vs real threads parked inside WritersHandle::set_new_spec",
+        "rule": "enumeration of interleavings (start_i before finish_i) of 2 and 3 calls with specs of different maximum levels; non-trivial = all cases (quiescence oracle evaluated)",
+        "trusted": SPEC_TRUST,
+        "shards": 2,
+    },
+    "C20": {
+        "level_text": "Kernel-checked theorems on the format model (Fmt): jsonUnescape(jsonEscape s) = s for ALL strings, escaped text has no raw control "
+                      "character or bare quote, the JSON object's members decode to the record's values (json_fields_decode), the four text formats and "
+                      "their coloured variants have the stated layout with the message verbatim, framing is format output ++ one line ending (also on the "
+                      "recursive path: emit_lines), and all outputs of one record carry the first clock reading (one_timestamp). Validation: byte-exact "
+                      "comparison of the real format functions through a real FileLogWriter (LF/CRLF) and of file + additional writer under a clock that "
+                      "advances on every read; serde_json parses the JSON lines back (oracle).",
+        "level_note": "Trusted: chrono's rendering of the timestamp text (passed to the model as data), serde_json/nu_ansi_term escaping rules as modelled "
+                      "(validated byte-exactly), kv Debug rendering restricted to printable ASCII + common escapes.",
+        "correspondence": "Fmt model vs flexi_logger::{default,opt,detailed,with_thread,colored_*,json}_format through FileLogWriter/Logger",
+        "rule": "seeded records (all present/absent field combinations, messages with quotes/backslashes/control/non-ASCII/multi-line, kv pairs) x 9 formats x LF/CRLF; "
+                "non-trivial = at least one formatted line compared",
+        "trusted": ["chrono strftime", "serde_json string escaping", "nu_ansi_term Style::paint"],
+        "shards": 4,
+    },
 }
